@@ -53,6 +53,18 @@ double vh_double(void)
     return 0.0;
 }
 
+double vh_double_in(double lo, double hi)
+{
+    double v = vh_double();
+    if (vh_use_rng) {          /* map the generic value into the declared range */
+        double t = (v + 16.0) / 32.0;
+        t = t - (long long)t; if (t < 0) t += 1.0;
+        return lo + t * (hi - lo);
+    }
+    if (!(v >= lo && v <= hi)) { printf("REPLAY-INFEASIBLE: assumption range [%g,%g] does not hold for input %g\n", lo, hi, v); exit(3); }
+    return v;
+}
+
 void vh_fail(const char *msg)
 {
     printf("REPLAY-ASSERT-FAIL: %s\n", msg);
